@@ -521,7 +521,23 @@ fn key_sweep(len: usize, sh: &util::Shard) -> Report {
             rep.distinct(&(emitted_plain, core_schema_is_string(key), key.len()));
             let case = json!({"type":"yaml-key","key":key});
             if emitted_plain && !core_schema_is_string(key) {
-                rep.violation("C05/yaml-plain-key-resolves-to-non-string", format!("manifestYamlDoc({{{key:?}: 1}}, quote_keys=false) emits the key plain ({:?}); a YAML 1.2 core-schema loader reads it as a number/bool/null", doc.trim()), case.clone());
+                // the signature names the shape of the key, so that a new class of unsafe plain
+                // keys is not folded into an already known one
+                let unsigned = key.trim_start_matches(['-', '+']);
+                let class = if key.starts_with("0o") {
+                    "octal-0o"
+                } else if key.starts_with("0x") {
+                    "hex-0x"
+                } else if !key.contains('.') && key.contains(['e', 'E']) && unsigned.chars().next().is_some_and(|c| c.is_ascii_digit()) {
+                    "exponent-float-without-dot"
+                } else if key.contains('.') && unsigned.chars().any(|c| c.is_ascii_digit()) {
+                    "float-with-dot"
+                } else if unsigned.chars().all(|c| c.is_ascii_digit()) {
+                    "integer"
+                } else {
+                    "word"
+                };
+                rep.violation(format!("C05/yaml-plain-key-resolves-to-non-string/{class}"), format!("manifestYamlDoc({{{key:?}: 1}}, quote_keys=false) emits the key plain ({:?}); a YAML 1.2 core-schema loader reads it as a number/bool/null", doc.trim()), case.clone());
             } else if !own_ok {
                 rep.violation("C05/yaml-key-own-parser-roundtrip", format!("std.parseYaml(manifestYamlDoc({{{key:?}: 1}}, quote_keys=false)) != the object; document {:?}", doc.trim()), case.clone());
             }
